@@ -13,8 +13,8 @@ import (
 
 type wireEditCfg struct {
 	Shuffle, Drop, Insert, Retype, Renumber bool
-	Trailing                                 bool
-	MaxInsert                                int
+	Trailing                                bool
+	MaxInsert                               int
 }
 
 var fullEdit = wireEditCfg{Shuffle: true, Drop: true, Insert: true, Retype: true, Renumber: true, Trailing: true, MaxInsert: 3}
@@ -35,7 +35,7 @@ var foreignTypes = []*core.TypeSpec{
 		}}}}},
 	}}},
 	{Kind: core.KList, Elem: &core.TypeSpec{Kind: core.KList, Elem: &core.TypeSpec{Kind: core.KSet, Elem: &core.TypeSpec{Kind: core.KI16}}}},
-	{Kind: core.KList, Elem: &core.TypeSpec{Kind: core.KBool}},  // empty containers come from count 0
+	{Kind: core.KList, Elem: &core.TypeSpec{Kind: core.KBool}}, // empty containers come from count 0
 	{Kind: core.KMap, Key: &core.TypeSpec{Kind: core.KI64}, Elem: &core.TypeSpec{Kind: core.KBool}},
 }
 
